@@ -5,6 +5,7 @@ import json
 import os
 import random
 import re
+import shutil
 import subprocess
 import sys
 import tempfile
@@ -65,6 +66,13 @@ def dyadic_exp(fr):
 
 
 def close(x, y, tau):
+    import math
+    if not isinstance(x, Fraction) and not isinstance(y, Fraction):
+        fx, fy = float(x), float(y)
+        if not (math.isfinite(fx) and math.isfinite(fy)):     # inf / nan (e.g. a gamma with a zero expected disorder): only identical values agree
+            return fx == fy or (math.isnan(fx) and math.isnan(fy))
+    elif (not isinstance(x, Fraction) and not math.isfinite(float(x))) or (not isinstance(y, Fraction) and not math.isfinite(float(y))):
+        return False
     x, y = frac(x), frac(y)
     return abs(x - y) <= tau * max(1, abs(x), abs(y))
 
@@ -172,10 +180,13 @@ def check_props(prop_id):
         info["log"] = (r.stdout + r.stderr)[-3000:]
         info["wall_s"] = time.time() - t0
         return info
-    if prop_id == "C20":
-        st = os.path.join(COQ, "gen", "STATUS")
-        if not os.path.exists(st) or open(st).read().strip() != "ok":
-            info["log"] = "translator harness/gen_tables.py failed on the current source: " + (open(st + ".err").read()[-500:] if os.path.exists(st + ".err") else "")
+    # generated tables this property's theorems are stated over: the translator must have succeeded on the CURRENT source (fail-closed)
+    needs = {"C20": ["cli"], "C04": ["dissim"], "C05": ["const"], "C07": ["const"], "C19": ["const"]}.get(prop_id, [])
+    st = os.path.join(COQ, "gen", "STATUS")
+    lines = dict(l.strip().split(" ", 1) for l in open(st) if " " in l.strip()) if os.path.exists(st) else {}
+    for g in needs:
+        if lines.get(g) != "ok":
+            info["log"] = "translator harness/gen_tables.py (%s table) failed on the current source: %s" % (g, lines.get(g, "no status"))
             info["wall_s"] = time.time() - t0
             return info
     src = os.path.join(COQ, "props", prop_id + ".v")
@@ -184,7 +195,17 @@ def check_props(prop_id):
         return info
     text = open(src).read()
     info["theorems"] = re.findall(r"^\s*(?:Theorem|Corollary)\s+([A-Za-z0-9_']+)", text, re.M)
+    extras = {"C04": ["genprops/DissimGen.v"]}.get(prop_id, [])     # regenerated definitions compiled with (and only with) this property
+    info["generated"] = extras
     with tempfile.TemporaryDirectory(prefix="pgaverif_") as d:
+        for e in extras:
+            shutil.copy(os.path.join(COQ, e), d)
+            r = subprocess.run(["timeout", "900", "coqc", "-Q", COQ + "/theories", "PGA", "-Q", COQ + "/gen", "PGAgen",
+                                "-Q", d, "PGAprops", os.path.join(d, os.path.basename(e))], capture_output=True, text=True)
+            if r.returncode != 0:
+                info["log"] = "definitions regenerated from the source (%s) do not compile: %s" % (e, (r.stdout + r.stderr)[-2000:])
+                info["wall_s"] = time.time() - t0
+                return info
         # a copy with Print Assumptions appended for EVERY theorem, so that none is overlooked
         tmp = os.path.join(d, prop_id + ".v")
         with open(tmp, "w") as f:
